@@ -90,7 +90,7 @@ def optional_facts(ctx: Ctx, c: ClassInfo) -> List[Dict[str, object]]:
     member_lists = [[(f.name, EnumMember(t.name, m)) for m in t.enum_members] for f, t in enum_fields]
     for choice in product(*member_lists) if member_lists else [()]:
         assume = {Attr(self_t, fname): mem for fname, mem in choice}
-        ev = Evaluator(ctx.model, assume=assume)
+        ev = Evaluator(ctx.model, assume=assume, inline=helper_inline((c.module.name,)))   # a shared presence helper is looked through
         allowed: Dict[str, Set[bool]] = {}
         for s in slots:
             ok = {True, False}
@@ -100,12 +100,19 @@ def optional_facts(ctx: Ctx, c: ClassInfo) -> List[Dict[str, object]]:
                     continue
                 val = Sym('value')
                 attr = Sym('attribute')
+                raise_paths = []
                 for o in ev.run(v, {params[0]: self_t, params[1]: attr, params[2]: val}):
-                    if o.kind != 'raise':
-                        continue
+                    if o.kind == 'raise':
+                        raise_paths.append(tuple(o.guards))
+                    # raises of a helper that was looked through appear as conditional effects
+                    for e in o.effects:
+                        for g_, leaf in alternatives(e):
+                            if type(leaf).__name__ == 'Raises':
+                                raise_paths.append(tuple(o.guards) + tuple(g_))
+                for rguards in raise_paths:
                     need: Optional[bool] = None
                     unknown = False
-                    for t, pol in norm_guards(o.guards):
+                    for t, pol in (implied_literals(rguards, 10) or norm_guards(rguards)):
                         nt = none_test(t)
                         if nt and nt[0] == val:
                             need = nt[1] if pol else (not nt[1])
@@ -523,6 +530,10 @@ def _leaf_rules(ctx: Ctx, r: RuleResult, scan_defs: Set[str] = frozenset()):
         for t, pol in norm_guards(o.guards):
             if pol and isinstance(t, Op) and t.op == '==' and set(t.args) == {alias, Attr(self_q, 'variable')}:
                 ok = True
+    for o in outs:
+        # ... or as one disjunction: return alias == self.variable or <the children>
+        if o.kind == 'return' and isinstance(o.value, Op) and o.value.op == 'or' and any(isinstance(t, Op) and t.op == '==' and set(t.args) == {alias, Attr(self_q, 'variable')} for t in o.value.args):
+            ok = True
     if not is_scan('HplQuantifier', 'contains_definition'):
         (r.ok('HplQuantifier.contains_definition(a): a == variable -> True') if ok else r.fail('HplQuantifier.contains_definition:binder', 'no path returns True when the alias equals the bound variable', fi.where))
 
@@ -1092,6 +1103,13 @@ def S8(ctx: Ctx) -> RuleResult:
         if isinstance(v, Op) and v.op == '+' and len(v.args) == 2:
             a, b = v.args
             ok = all(isinstance(x, Call) and call_name(x) == 'aliases' for x in (a, b)) and call_recv(a) == Attr(self_t, 'event1') and call_recv(b) == Attr(self_t, 'event2')
+        # the aliases of the leaves in the order simple_events() yields them (that order is checked just below)
+        inner = v.args[0] if isinstance(v, Call) and isinstance(v.func, Ext) and v.func.name in ('tuple', 'list') and len(v.args) == 1 else v
+        if isinstance(inner, Comp) and len(inner.gens) == 2 and not inner.gens[0][2] and not inner.gens[1][2]:
+            (t1, it1, _), (t2, it2, _) = inner.gens
+            if isinstance(it1, Call) and call_name(it1) == 'simple_events' and call_recv(it1) == self_t and isinstance(it2, Call) and call_name(it2) == 'aliases' \
+                    and call_recv(it2) == Sym(f'each:{t1}') and inner.elt == Sym(f'each:{t2}'):
+                ok = True
     (r.ok('aliases() = event1.aliases() + event2.aliases()') if ok else r.fail('HplEventDisjunction.aliases', f'aliases are not event1 then event2: {[str(o) for o in outs]}', fi.where))
     # simple_events
     fi = ed.resolve('simple_events')
